@@ -48,3 +48,16 @@ Example C10_nonvacuous :
   render_query (set_with_alias true (set_subquery true (set_with_namespace true (ctx_of BGeneric)))) None q
     = Ok (L "(SELECT ""a"" FROM ""t"" WHERE ""b""=1) ""sq""", None).
 Proof. vm_compute. repeat split. Qed.
+
+(* ... and a PostgreSQL DELETE .. RETURNING with aliased returned columns (legal as a CTE body): RETURNING stays inside the parentheses *)
+Example C10_returning_nonvacuous :
+  let t := MkTRef true (L "t") [] None 0 in
+  let q := MkQ BPostgreSQL (MkFl (Some (L "sq")) true false false false false false false false false false false false true [] [] None WPlain)
+             (TCons (TTable t NoT NoT) TNil) WNil TNil TNil TNil TNil RNil
+             (SomeT (TBasic (CEq Eq) (TField (L "b") (Some t) None) (TVal WPlain (VInt 1) (L "v1") None true) None))
+             NoT NoT GNil ONil JNil NoT NoT UNil NoT NoT TNil CUNil NoT NoT
+             (TCons (TField (L "id") (Some t) None) (TCons (TField (L "c") (Some t) (Some (L "rc"))) TNil)) TNil in
+  selectable q = true /\ complete q = true /\
+  render_query (set_with_alias true (set_subquery true (set_with_namespace true (ctx_of BPostgreSQL)))) None q
+    = Ok (L "(DELETE FROM ""t"" WHERE ""b""=1 RETURNING ""id"",""c"" ""rc"") ""sq""", None).
+Proof. vm_compute. repeat split. Qed.
